@@ -15,9 +15,17 @@ Theorem C08_split_bounded_relative : forall (N : Num) s thr minb maxb, keep_rel 
 Proof. exact keep_rel_cap. Qed.
 Print Assumptions C08_split_bounded_relative.
 
-Theorem C08_two_site_svd_bounded : forall (N : Num) s thr m, keep_tss N s thr (Some m) <= m.
+Theorem C08_two_site_svd_bounded : forall (N : Num) s thr minb m, keep_tss N s thr minb (Some m) <= m.
 Proof. exact keep_tss_cap. Qed.
 Print Assumptions C08_two_site_svd_bounded.
+
+(* the uncapped SVD-based centre shift (apply_dissipation, normalisation after a jump): a merged matrix of rank <= chi
+   (singular values beyond the chi-th vanish) that carries at least the threshold weight is re-split with at most
+   max(chi, min_bond_dim) values: the shift never enlarges a bond beyond the bound of the property *)
+Theorem C08_svd_shift_bounded : forall s thr minb chi, (0 < thr)%Q -> Forall (fun x => x == 0)%Q (skipn chi s) ->
+  (thr <= tail_weight QN s 0)%Q -> keep_tss QN s thr minb None <= Nat.max chi (Nat.min (length s) minb).
+Proof. exact tss_rank_bound. Qed.
+Print Assumptions C08_svd_shift_bounded.
 
 (* invariant over every sequence of operations with adversarially chosen spectra: each bond stays below
    max(cap, min_bond_dim, its initial value) *)
@@ -50,3 +58,6 @@ Print Assumptions C08_truncate_covers_all_bonds.
 Example C08_cap3_example : keep_dw QN [1; 9#10; 8#10; 7#10]%Q (1#1000000)%Q 1 3 true = 3
   /\ bounded 3 [1;2;1] (fold_left bond_step [SplitAt 1 (keep_dw QN [1; 9#10; 8#10; 7#10]%Q (1#1000000)%Q 1 3 true); ShrinkAt 0 5] [1;2;1]).
 Proof. split; [vm_compute; reflexivity|]. vm_compute. repeat constructor. Qed.
+(* a product-state bond (rank 1) with min_bond_dim = 1 stays at 1; with the default min_bond_dim = 2 it is padded to 2 *)
+Example C08_svd_shift_example : keep_tss QN [1; 0]%Q (1#1000000000000)%Q 1 None = 1 /\ keep_tss QN [1; 0]%Q (1#1000000000000)%Q 2 None = 2.
+Proof. vm_compute. split; reflexivity. Qed.
